@@ -3,7 +3,7 @@
    computed from waveforms of the exactly diagonal family.
    kind "features":  {pcf, pcind, rows, st, spikes, chans, out}
    kind "tfeatures": {tf, tfind, rows, st, spikes, nt, out}
-   kind "pca":       {w, F};  kind "pca_rep": {w, cnt, F} (a long request: distinct waveforms with multiplicities)                                                                    *)
+   kind "pca":       {w, F};  kind "pca2": {w, F} (two waveforms: first component only);  kind "pca_rep": {w, cnt, F} (a long request: distinct waveforms with multiplicities)                                                                    *)
 EXTENDS Features
 VARIABLE i
 Trace == ndJsonDeserialize(TraceFile)
@@ -11,6 +11,7 @@ TInit == FInit /\ i = 1 /\ RejectInit /\ TLCSet(2, 0)
 Check1(r) == CASE r.kind = "features" -> Clause(r.id, "GetFeatures", GetFeaturesOk(r.out, r.pcf, r.pcind, r.rows, r.st, r.spikes, r.chans))
                [] r.kind = "tfeatures" -> Clause(r.id, "GetTemplateFeatures", GetTemplateFeaturesOk(r.out, r.tf, r.tfind, r.rows, r.st, r.spikes, r.nt))
                [] r.kind = "pca" -> Clause(r.id, "PairProduct", PairProductOk(r.w, r.F))
+               [] r.kind = "pca2" -> Clause(r.id, "FirstComponent", FirstComponentOk(r.w, r.F))
                [] r.kind = "pca_rep" -> Clause(r.id, "PairProduct", PairProductOkW(r.w, r.cnt, r.F))
 TNext == /\ i <= Len(Trace) /\ Check1(Trace[i]) /\ TLCSet(2, i) /\ i' = i + 1 /\ UNCHANGED fvars
 TSpec == TInit /\ [][TNext]_<<fvars, i>>
